@@ -317,6 +317,47 @@ def aipw_calculator_direct(chk, drv, rng, n_cases):
             close(unfx(rep['var']), var, rtol=1e-9, atol=1e-14)
         chk.k(ok, 'aipw_calculator = definition generated from its source (estimate and variance, NaN outcomes skipped)',
               dict(case, impl=[float(est), float(var)], model=rep))
+    # gate D on the function itself: with the saturated outcome fit (cell means) as predictions and treatment
+    # probabilities that are arbitrary functions of the stratum -- g1 and g0 need not sum to one: AIPTW truncates them
+    # separately -- the pseudo-outcome means are the standardized means (Props/C02 aipw_dr_outcome, C01 aipw_saturated)
+    for _ in range(max(20, n_cases // 3)):
+        k = int(rng.integers(2, 4))
+        n = int(rng.integers(6 * k, 60))
+        s = rng.integers(0, k, size=n)
+        a = rng.integers(0, 2, size=n).astype(float)
+        for j in range(k):                      # every (stratum, arm) cell is occupied
+            s[2 * j], a[2 * j], s[2 * j + 1], a[2 * j + 1] = j, 0.0, j, 1.0
+        y = np.round(rng.uniform(0, 1, size=n), 3) if rng.uniform() < 0.5 else rng.integers(0, 2, size=n).astype(float)
+        hasw = bool(rng.uniform() < 0.5)
+        w = rng.integers(1, 5, size=n).astype(float) if hasw else np.ones(n)
+        cm = {(j, v): float(np.sum((w * y)[(s == j) & (a == v)]) / np.sum(w[(s == j) & (a == v)]))
+              for j in range(k) for v in (0.0, 1.0)}
+        q1 = np.array([cm[(j, 1.0)] for j in s])
+        q0 = np.array([cm[(j, 0.0)] for j in s])
+        g1s, g0s = rng.uniform(0.1, 0.9, size=k), rng.uniform(0.1, 0.9, size=k)
+        if rng.uniform() < 0.3:
+            g0s = 1 - g1s
+        g1, g0 = g1s[s], g0s[s]
+        std1 = sum(np.sum(w[s == j]) * cm[(j, 1.0)] for j in range(k)) / np.sum(w)
+        std0 = sum(np.sum(w[s == j]) * cm[(j, 0.0)] for j in range(k)) / np.sum(w)
+        diff = bool(rng.uniform() < 0.5)
+        case = {'fn': 'aipw_calculator', 'kind': 'saturated outcome predictions, treatment probabilities by stratum',
+                'difference': diff, 'weights': hasw, 's': s.tolist(), 'a': a.tolist(), 'y': y.tolist(),
+                'w': w.tolist(), 'g1': g1s.tolist(), 'g0': g0s.tolist(), 'std': [float(std1), float(std0)]}
+        chk.case(case, ('aipw_calculator_sat', hash(str(case))))
+        chk.count('aipw_calculator/saturated/%s/%s' % ('diff' if diff else 'ratio', 'w' if hasw else 'nw'))
+        if not diff and abs(std0) < 1e-9:
+            chk.discard('standardized risk under no treatment is 0: ratio undefined')
+            continue
+        try:
+            est, _ = aipw_calculator(y=y, a=a, py_a=q1, py_n=q0, pa1=g1, pa0=g0, difference=diff,
+                                     weights=pd.Series(w) if hasw else None, splits=None, continuous=True)
+            want = std1 - std0 if diff else std1 / std0
+            chk.d(close(float(est), want, rtol=1e-9, atol=1e-11),
+                  'aipw_calculator with saturated outcome predictions = standardized %s (treatment probabilities arbitrary '
+                  'by stratum, not complementary)' % ('difference' if diff else 'ratio'), dict(case, impl=float(est), want=float(want)))
+        except Exception as e:
+            chk.d(False, 'aipw_calculator raised on valid input: %s' % repr(e)[:200], case)
 
 
 
@@ -341,6 +382,23 @@ def replay(rec):
     for f in rec.get('failures', []):
         c = f['case']
         print('replaying:', f['what'], {k: v for k, v in c.items() if k not in ('data',)})
+        if c.get('fn') == 'aipw_calculator' and 'std' in c:
+            from zepid.causal.utils import aipw_calculator
+            import pandas as pd
+            sidx = np.array(c['s'])
+            a, y, w = np.array(c['a']), np.array(c['y']), np.array(c['w'])
+            cm = {(j, v): float(np.sum((w * y)[(sidx == j) & (a == v)]) / np.sum(w[(sidx == j) & (a == v)]))
+                  for j in set(c['s']) for v in (0.0, 1.0)}
+            q1 = np.array([cm[(j, 1.0)] for j in sidx])
+            q0 = np.array([cm[(j, 0.0)] for j in sidx])
+            est, _ = aipw_calculator(y=y, a=a, py_a=q1, py_n=q0, pa1=np.array(c['g1'])[sidx], pa0=np.array(c['g0'])[sidx],
+                                     difference=c['difference'], weights=pd.Series(w) if c['weights'] else None,
+                                     splits=None, continuous=True)
+            want = c['std'][0] - c['std'][1] if c['difference'] else c['std'][0] / c['std'][1]
+            chk.d(close(float(est), want, rtol=1e-9, atol=1e-11), f['what'], dict(c, impl=float(est), want=want))
+            print('  impl', float(est), 'standardized', want)
+            n = len(chk.d_fail)
+            continue
         data = c.get('data', {})
         if 'frame' not in data or 'columns' not in data['frame']:
             print('  (data set too large to be stored; rerun with the recorded seed)')
@@ -356,6 +414,6 @@ def replay(rec):
                     chk, None, df, covs, c['outcome'], wcol, cf, 0, data)
             if c['estimator'] == 'TMLE':
                 run_tmle(chk, None, df, covs, c['outcome'], cf, 0, data, c.get('continuous_bound', 0.0005))
-        n += len(chk.d_fail)
+        n = len(chk.d_fail)
     print('failures reproduced:', n)
     return 1 if n else 0
